@@ -25,11 +25,14 @@ META = {
                   'run time, executions discarded for UB.',
     'level_note': 'Trusts gcc 12 x86-64 (= --platform=unix64, signed char) as the execution semantics and ASan+UBSan as '
                   'the UB filter; speaks only about expressions actually evaluated; possible/inconclusive values, '
-                  'non-zero path, float/lifetime/tok values and symbolic relations are not judged in this revision.',
+                  'non-zero path, float/lifetime/tok values are not judged; a symbolic relation is judged only when the '
+                  'other expression is a probed token evaluated earlier in the text and ref+delta does not wrap.',
     'design_ref': 'DESIGN.md §3 C01',
 }
 
-KIND_NAMES = ['known', 'impossible-point', 'impossible-upper', 'impossible-lower']
+KIND_NAMES = ['known', 'impossible-point', 'impossible-upper', 'impossible-lower',
+              'symbolic-known', 'symbolic-impossible-point', 'symbolic-impossible-upper', 'symbolic-impossible-lower']
+SYMBOLIC = os.environ.get('VERIF_C01_SYMBOLIC', '1') == '1'
 
 
 def analyse_program(ctx, prog, d, extra_args=(), lang='c', attr='intvalue'):
@@ -51,6 +54,8 @@ def analyse_program(ctx, prog, d, extra_args=(), lang='c', attr='intvalue'):
     facts = []
     desc = {}
     joined = unjoined = 0
+    tok_by_id = {t.id: t for t in _toks}
+    probe_at = {(l, c): p for p, (l, c, _s, _k) in prog.probes.items()}
     for pid, (line, col, tokstr, kind) in prog.probes.items():
         cands = [t for t in by_pos.get((line, col), []) if t.str == tokstr or (tokstr == '.' and t.str == '.')]
         if not cands:
@@ -61,6 +66,10 @@ def analyse_program(ctx, prog, d, extra_args=(), lang='c', attr='intvalue'):
         for kidx, k, text in probe.int_facts_for_token(tok, values, attr=attr):
             facts.append((pid, kidx, k))
             desc[(pid, kidx, k)] = '%s @ %d:%d (token %r, %s expression)' % (text, line, col, tokstr, kind)
+        if attr == 'intvalue' and SYMBOLIC:
+            for kidx, d, rp, text in probe.symbolic_facts_for_token(tok, values, tok_by_id, probe_at):
+                facts.append((pid, kidx, d, rp))
+                desc[(pid, kidx, d, rp)] = '%s @ %d:%d (token %r, %s expression)' % (text, line, col, tokstr, kind)
     return facts, desc, {'joined': joined, 'unjoined': unjoined}
 
 
@@ -79,11 +88,12 @@ def check_program(prog, d, vecs, extra_args=(), lang='c', counter=None, attr='in
     obs = probe.run_inputs(exe, d, facts, vecs)
     viols = []
     hit = {}
-    for (pid, kidx, K), (hits, viol, bad, vec) in obs.facts.items():
+    for fk, (hits, viol, bad, vec) in obs.facts.items():
+        pid, kidx, K = fk[0], fk[1], fk[2]
         if hits:
-            hit[(pid, kidx, K)] = hits
+            hit[fk] = hits
         if viol:
-            viols.append((pid, kidx, K, bad, vec, viol, hits, desc.get((pid, kidx, K), '?')))
+            viols.append((pid, kidx, K, bad, vec, viol, hits, desc.get(fk, '?')))
     return {'status': 'ok', 'facts': facts, 'viols': viols, 'hit': hit, 'obs': obs, 'stats': st}
 
 
@@ -103,14 +113,15 @@ def one_program(ctx, idx, lang, nvec, extra_args=()):
         facts, obs, st = res['facts'], res['obs'], res['stats']
         ctx.count('probes', 'joined', st['joined'])
         ctx.count('probes', 'unjoined', st['unjoined'])
-        for _p, k, _K in facts:
-            ctx.count('facts_by_kind', KIND_NAMES[k])
+        for fct in facts:
+            ctx.count('facts_by_kind', KIND_NAMES[fct[1]])
         ext = '.c' if lang == 'c' else '.cpp'
         ctx.count('executions', 'clean', obs.ok_runs)
         ctx.count('executions', 'discarded', obs.discarded)
         for k, v in obs.discard_reasons.items():
             ctx.count('discard_reasons', k, v)
-        for (pid, kidx, K), hits in res['hit'].items():
+        for fk, hits in res['hit'].items():
+            kidx = fk[1]
             ctx.count('facts_hit_by_kind', KIND_NAMES[kidx])
             ctx.count('fact_hits_total', 'observations', hits)
         for pid, kidx, K, bad, vec, viol, hits, dsc in res['viols']:
